@@ -326,7 +326,7 @@ theorem eq_of_nodup_map {α β : Type} (f : α → β) {l : List α} (hn : (l.ma
 structure WfV (V : List PV) (nt : Nat) : Prop where
   conns : (V.map (·.conn)).Nodup
   owner : ∀ v ∈ V, ∀ r ∈ v.routes, r.owner = v.conn
-  requester : ∀ r ∈ vRoutes V, ∃ v ∈ V, v.conn = r.requester
+  requester : ∀ r ∈ vRoutes V, r.requester ∈ V.map (·.conn)
   timerLt : ∀ r ∈ vRoutes V, r.timer < nt
   timers : ((vRoutes V).map (·.timer)).Nodup
 
